@@ -43,7 +43,7 @@ T = {
  "C19": ("Coq: OrderQueue refines an abstract FIFO with lookup/removal whenever every push is fresh (no outstanding ticket of that id); pop always returns the head of abs; find/remove/len/is_empty/to_vec unconditional; builders. The literal FIFO claim is REFUTED for re-push after removal by id (K2) - known finding. Tie: OrderQueue API differential vs model and vs the extracted abstract FIFO.",
          "Coq refinement to an abstract FIFO + refutation witness + API differential"),
 }
-NOTE = ("Trusted: Coq 8.16.1 kernel; extraction (ExtrOcamlBasic) + modelrun/driver.ml; Rust harness, verif_sync hooks and python drivers; the theorems are about the hand-written model (Model/*.v), tied to the code by the differential run of this check on generated inputs (strength bounded by the generators; distribution in the evidence). "
+NOTE = ("Trusted: Coq 8.16.1 kernel; extraction (ExtrOcamlBasic; plus ExtrOcamlString for the codec models of C09/C16/C17/C18) + modelrun/driver*.ml; Rust harness, verif_sync hooks and python drivers; the theorems are about the hand-written model (Model/*.v), tied to the code by the differential run of this check on generated inputs (strength bounded by the generators; distribution in the evidence). "
         "Modelled not verified: DashMap/SegQueue as linearisable objects, sequentially consistent memory, usize = 64 bit. No axioms (Print Assumptions closed, checked every run).")
 props = [json.loads(l) for l in open(os.path.join(V, "properties.jsonl"))]
 claimed = [p["id"] for p in props if os.path.exists(os.path.join(V, "vlib", p["id"].lower() + ".py"))
